@@ -94,17 +94,24 @@ def _case_environment(idx):
     k = idx + _seed()
     for var, val in (('TZ', _TZS[k % len(_TZS)]), ('LANG', _LANGS[(k // 2) % len(_LANGS)]),
                      ('LC_ALL', _LANGS[(k // 3) % len(_LANGS)] if k % 4 == 0 else None),
-                     ('HOME', ['/root', '/nonexistent/verif-home', '/'][k % 3]),
+                     ('HOME', [os.path.join(os.environ.get('VERIF_SCRATCH') or '/nonexistent', 'home'),
+                               '/nonexistent/verif-home',
+                               os.path.join(os.environ.get('VERIF_SCRATCH') or '/nonexistent', 'home two')][k % 3]),
                      ('COLUMNS', [None, '40', '200'][(k // 5) % 3])):
         if val is None:
             os.environ.pop(var, None)
         else:
             os.environ[var] = val
     time.tzset()
-    try:
-        os.chdir(['/', os.environ.get('VERIF_SCRATCH') or '/', '/tmp'][k % 3])
-    except OSError:
-        pass
+    # (never / or /tmp: the code under test may be a changed copy that removes or writes files where it stands)
+    base = os.environ.get('VERIF_SCRATCH')
+    if base:
+        try:
+            d = os.path.join(base, 'cwd-%d' % os.getpid(), ['here', 'with blank', 'deep/er/still'][k % 3])
+            os.makedirs(d, exist_ok=True)
+            os.chdir(d)
+        except OSError:
+            pass
 
 
 _REPLAY_INDEX = None
